@@ -245,3 +245,59 @@ func VerifRequestedLimit(requested []string, nvideo int, naudio int) (int, bool,
 	}
 	return len(ts), limit, idx
 }
+
+// RaceStress runs Write (one goroutine, a VP9 stream that alternates spatial
+// layers and sends keyframes) against adjustLayer (another goroutine, as the RTCP
+// listener does) and checks what C04 says about whole operations: between the end
+// of one Write and the start of the next, the current sid/tid may not change
+// (feedback never moves the current layer).  Returns "ok" or a description.
+func (v *VerifDown) RaceStress(ms int, mk func(seq int, key bool, sid int) []byte) string {
+	stop := make(chan struct{})
+	done := make(chan struct{})
+	go func() {
+		defer close(done)
+		i := 0
+		for {
+			select {
+			case <-stop:
+				return
+			default:
+			}
+			// alternate between "switch up" and "switch down" conditions
+			if i%2 == 0 {
+				v.Down.maxBitrate.Set(1<<30, rtptime.Jiffies())
+			} else {
+				v.Down.maxBitrate.Set(9600, rtptime.Jiffies())
+			}
+			v.Down.adjustLayer()
+			i++
+		}
+	}()
+	deadline := time.Now().Add(time.Duration(ms) * time.Millisecond)
+	seq := 1
+	res := "ok"
+	var last layerInfo
+	have := false
+	for time.Now().Before(deadline) {
+		key := seq%7 == 0
+		for sid := 0; sid < 2; sid++ {
+			if have {
+				cur := v.Down.getLayerInfo()
+				if cur.sid != last.sid || cur.tid != last.tid {
+					res = fmt.Sprintf("bad:layer-moved-between-writes-sid-%d-to-%d-tid-%d-to-%d", last.sid, cur.sid, last.tid, cur.tid)
+					goto out
+				}
+			}
+			v.Down.Write(mk(seq, key, sid))
+			last = v.Down.getLayerInfo()
+			have = true
+			seq++
+		}
+	}
+out:
+	close(stop)
+	<-done
+	v.sink.out = nil
+	v.drainKf()
+	return res
+}
